@@ -88,16 +88,29 @@ func genTable(t *rapid.T, bias string) TableSc {
 	usedAddr := map[string]bool{}
 	for i := 0; i < np; i++ {
 		var p TPeer
+		sameHost := -1
 		// address
 		switch k := rapid.IntRange(0, 9).Draw(t, "p.addrkind"); {
 		case k == 0 && i > 0: // same address as an earlier peer, other ID
 			q := sc.Peers[rapid.IntRange(0, i-1).Draw(t, "p.cloneaddr")]
 			p.IP, p.Port = q.IP, q.Port
+		case k == 9 && i > 0: // another port of an earlier peer's IP, usually under that peer's ID
+			j := rapid.IntRange(0, i-1).Draw(t, "p.clonehost")
+			q := sc.Peers[j]
+			p.IP, p.Port = q.IP, 1+(q.Port+uniformInt(t, 3, "p.portdelta"))%65535
+			if uniformInt(t, 3, "p.samehostid") > 0 {
+				sameHost = j
+			}
 		case k <= 2 && sc.Dual: // genuine IPv6
 			ip := net.ParseIP("2001:db8::").To16()
 			ip[14], ip[15] = byte(i>>8), byte(i+1)
-			if rapid.IntRange(0, 3).Draw(t, "p.v6ll") == 0 {
+			switch rapid.IntRange(0, 5).Draw(t, "p.v6ll") {
+			case 0:
 				ip[0], ip[1] = 0xfe, 0x80
+			case 1: // unique-local: private in name, but not exempt from BEP 42
+				ip[0], ip[1] = 0xfd, 0x12
+			case 2:
+				ip[0], ip[1] = 0xfc, 0x00
 			}
 			p.IP, p.Port = kit.Hex(ip), genPort(t, "p.port")
 		case k <= 5: // private IPv4 (exempt from BEP 42)
@@ -125,6 +138,9 @@ func genTable(t *rapid.T, bias string) TableSc {
 		}
 		if sc.Security && !refmodel.Bep42Exempt(net.IP(p.IP)) && rapid.IntRange(0, 2).Draw(t, "p.secure") > 0 {
 			id = refmodel.Bep42Secure(id, net.IP(p.IP))
+		}
+		if sameHost >= 0 {
+			id = arr20(sc.Peers[sameHost].ID)
 		}
 		p.ID = kit.Hex(id[:])
 		p.Alive = rapid.IntRange(0, 3).Draw(t, "p.alive") > 0
@@ -160,7 +176,8 @@ func genTable(t *rapid.T, bias string) TableSc {
 			// build-up first (responses make good entries), probes interleaved
 			switch {
 			case r < 30:
-				op = TOp{Kind: "P", Peer: peer("op.peer"), Outcome: "answer", AltRep: uniformInt(t, 4, "op.altrep") == 0}
+				// a ping or (1 in 3) a find_node of the node's own: both are answered, both are liveness evidence
+				op = TOp{Kind: pick(t, "op.pkind", "P", "P", "H"), Peer: peer("op.peer"), Outcome: "answer", Alt: peer("op.alt"), AltRep: uniformInt(t, 4, "op.altrep") == 0}
 			case r < 38:
 				op = TOp{Kind: "P", Peer: peer("op.peer"), Outcome: outcome(), Alt: peer("op.alt"), AltRep: uniformInt(t, 4, "op.altrep") == 0}
 			case r < 50:
